@@ -28,6 +28,7 @@ type Event struct {
 	Args  map[string]string `json:"args,omitempty"`
 
 	msgs []sdk.Msg // decoded cache
+	then []*Event  // generator-side only: events the scheduler emits right after this one (each is recorded on its own)
 }
 
 const defaultGas = 60_000_000
